@@ -11,13 +11,14 @@ MANIFEST = dict(
     text="Coq theorems over one searcher event stream (any input, configuration, abstract matcher) about executable "
          "models of SummarySink, StandardSink and JSONSink: count = number of matched events = number of match records "
          "the standard printer writes; count-matches = sum of re-discovered spans = -o records = JSON submatches = "
-         "stats.matches; -l / --files-without-match / -q decided by count > 0; stats are field-wise sums; a matched "
+         "stats.matches, also under -m N over the consumed prefix of the stream (count_matches_under_limit, "
+         "json_submatches_under_limit); -l / --files-without-match / -q decided by count > 0; stats are field-wise sums; a matched "
          "line has a submatch outside the class EmptyMatchAtEndOfUnterminatedLastLine (refuted inside it: D2). "
          "Tie to the code: extracted models vs the real printers driven by the real searcher and RegexMatcher on "
          "generated cases, the cross-mode relations checked directly on the real outputs (library and rg CLI).",
     note="trusted: Coq kernel, extraction, OCaml driver, Rust harness; the matcher is a Section variable tabulated per "
          "case; the searcher's call protocol (prefix up to the first refusal, then finish) is assumed here and is "
-         "property C16; -o record count in multi-line mode, --stats rendering in main.rs and the hiargs mode "
+         "property C16; -o record count in line mode is a theorem (one record per submatch), in multi-line mode it is tested; --stats rendering in main.rs and the hiargs mode "
          "normalisation are tested (CLI), not proved; D13 repaired by a fix: commit; known findings: "
          "EmptyMatchAtEndOfUnterminatedLastLine (D2), MultiLineMaxCountSummary",
     technique="Coq proof over executable models + extracted-model/implementation correspondence + cross-mode oracle on "
